@@ -223,6 +223,12 @@ Proof.
   - assert (X := wf_load_rows (sel_val a (dbc (autoflush_then Legacy m s))) _ W1).
     destruct (load_rows _ _). apply X. intros row H. apply filter_In in H. apply H.
   - exact W1.
+  - exact W1.
+  - exact W1.
+  - exact W1.
+  - exact W1.
+  - exact W1.
+  - exact W1.
 Qed.
 
 Lemma wf_step : forall o s, WF s -> WF (fst (step o s)).
